@@ -284,8 +284,8 @@ func TestC17(t *testing.T) {
 		i++
 	})
 	r.exhaustive(fmt.Sprintf("all 8 Result/Any style combinations x option/builder construction x fallback on/off x %d payload kinds x exec{value, error then value, error Result}: %d cases, each also run as its style twin", numPayKinds, n))
-	rapidPart(r, "rand-single", r.pick(2500, 40000), genC17(0), checkC17)
-	rapidPart(r, "rand-flow", r.pick(2500, 40000), genC17(2), checkC17)
+	rapidPart(r, "rand-single", r.pick(2500, 120000), genC17(0), checkC17)
+	rapidPart(r, "rand-flow", r.pick(2500, 120000), genC17(2), checkC17)
 	g := batchGen{MinN: 1, MaxN: 8, MaxC: 3, Modes: []int{0, 1}, MaxBudget: 2, PFail: 200, PResErr: 250, PPreErr: 100, Fb: true, Gated: 2, MaxSched: 20}
 	rapidPart(r, "batch-exec", r.pick(1500, 25000), g.gen, checkC17Batch)
 }
